@@ -189,6 +189,29 @@ _PAUSE_FAILS_PERSISTENTLY = {
         [{"op": "probe"}, {"op": "yield", "x": "w1", "s": {"new": {"item": [1, 7, {"set": 7}]}}}, {"op": "return", "e": {"var": "w1"}}]],
     "params": {"kinds": {}},
 }
+# a context that is BROKEN once its scheduler-driven resume() has failed: the resume error completes the suspended task, closing
+# its generator runs the block's __exit__, whose pause() raises as well.  On /repo before e494717 that second error escaped
+# AsyncTask._computed() and unwound the scheduler loop: value() raised the pause error and the scheduler kept the task and its
+# parent (found while strengthening for seeded change C08-9).  Followed by a computation that must run as on a fresh scheduler.
+_RESUME_THEN_PAUSE_FAILS = {
+    "roots": [
+        [{"op": "yield", "x": "x1", "s": {"new": {"task": [
+            {"op": "with", "c": {"async": [1, {"resume": [1, 44], "sticky": True}]},
+             "body": [{"op": "yield", "x": "a1", "s": {"new": {"item": [0, 1, {"set": 1}]}}}]},
+            {"op": "return", "e": 0}]}}},
+         {"op": "return", "e": {"var": "x1"}}],
+        [{"op": "probe"}, {"op": "yield", "x": "x2", "s": {"new": {"item": [0, 2, {"set": 2}]}}}, {"op": "probe"}, {"op": "return", "e": {"var": "x2"}}],
+        [{"op": "try", "body": [{"op": "yield", "x": "y1", "s": {"tuple": [
+            {"new": {"item": [1, 3, {"set": 3}]}},
+            {"new": {"task": [
+                {"op": "with", "c": {"async": [2, {"resume": [1, 45], "sticky": True}]},
+                 "body": [{"op": "yield", "x": "b1", "s": {"new": {"item": [0, 4, {"set": 4}]}}}]},
+                {"op": "return", "e": 0}]}}]}}],
+          "x": "e1", "handler": [{"op": "probe"}]},
+         {"op": "probe"}, {"op": "return", "e": 1}],
+        [{"op": "probe"}, {"op": "yield", "x": "w1", "s": {"new": {"item": [1, 7, {"set": 7}]}}}, {"op": "return", "e": {"var": "w1"}}]],
+    "params": {"kinds": {}},
+}
 _EXTRA = [(2, dict(_base, name="ctx-faults", p_ctx_fault=0.8, p_with=0.45, p_item=0.6, p_probe=0.25, p_nonasync=0.1)),
           (1, dict(_base, name="cancel-self", p_flush_raise=0.8, p_via_cancel=0.8, p_item=0.65, nkinds=3)),
           (1, dict(_base, name="base-errors", p_base_err=1.0, p_flush_raise=0.5, p_item=0.6)),
@@ -201,5 +224,5 @@ _EXTRA2 = [(1, dict(_base, name="pause-fails-persistently", p_ctx_fault=0.85, p_
 mach.install(globals(), "C08", ("EvProbe", "EvSched"), ("C08:",), PROFILES, n_quick=300, n_thorough=25000,
              nontrivial=_nontrivial, level="proof",
              corpus=[_GUARD_BATCH, _GUARD_NESTED, _GUARD_CAUGHT, _STALE_BATCH, _RESUME_FAILS, _CANCEL_SELF, _RETURNS_FUTURE, _CALLEE_RESUME_FAILS, _NESTED_NOTHING_TO_FLUSH,
-                     _PAUSE_FAILS_PERSISTENTLY],
+                     _PAUSE_FAILS_PERSISTENTLY, _RESUME_THEN_PAUSE_FAILS],
              extra_gen=mach.extra_all(mach.extra_profiles(_EXTRA, 100, 6000), mach.extra_profiles(_EXTRA2, 40, 2500)))
